@@ -1,4 +1,5 @@
 import Morlock.Spec.Score
+import Morlock.Model.Search
 import Morlock.Driver.Util
 namespace Morlock.Driver
 open Morlock.Model Morlock.Model.Score Morlock.Spec
@@ -31,6 +32,20 @@ def scoreOp (args : List String) : String :=
     | _ => "bad-op"
   | ["inc", a] => match parseScore? a with
     | some a => fmtScore a.incMate
+    | _ => "bad-op"
+  | ["dec", a] => match parseScore? a with
+    | some a => fmtScore (decMate a)
+    | _ => "bad-op"
+  | ["decinc", a] => match parseScore? a with
+    | some a => fmtScore (decMate a).incMate
+    | _ => "bad-op"
+  | ["roundtrip", a] => match parseScore? a with
+    | some a => fmtScore (decMate a.negate).incMate.negate
+    | _ => "bad-op"
+  | ["deceq", a] => match parseScore? a with
+    | some a =>
+      let x := decMate a
+      s!"{boolStr (x == Score.infScore)} {boolStr (x == Score.negInfScore)} {boolStr (x.negate.negate == x)}"
     | _ => "bad-op"
   | ["max", a, b] => match parseScore? a, parseScore? b with
     | some a, some b =>
